@@ -215,7 +215,7 @@ Section Tables.
         | Panic s => Panic s
         | Ok f1 => match add_to_filter "elements" fct by_addr del_el f1 with
                    | Panic s => Panic s
-                   | Ok f2 => Ok (filters ++ [VStruct f2])
+                   | Ok f2 => Ok (filters ++ [VStruct f2])%list
                    end
         end
       else Ok filters in
@@ -227,7 +227,7 @@ Section Tables.
           | Panic s => Panic s
           | Ok f1 => match add_to_filter "elements" fct false read_el f1 with
                      | Panic s => Panic s
-                     | Ok f2 => Ok (fl ++ [VStruct f2])
+                     | Ok f2 => Ok (fl ++ [VStruct f2])%list
                      end
           end
         else Ok fl
